@@ -68,7 +68,7 @@ def eval_one(args):
     others = []
     for l in det.stdout.split("\n"):
         mm = re.match(r"(C\d\d) mismatches=(\d+) oracle=(\d+)", l)
-        if mm and (int(mm.group(2)) or (int(mm.group(3)) and not ("2^96" in l and mm.group(1) == "C07") and not ("pro-rata share" in l and mm.group(1) == "C09"))):
+        if mm and (int(mm.group(2)) or (int(mm.group(3)) and not ("2^96" in l and mm.group(1) == "C07") and not ("pro-rata share" in l and mm.group(1) == "C09") and not ("not a whole number" in l and mm.group(1) == "C03"))):
             others.append(mm.group(1))
     return sid, r.returncode, (viol[0] if viol else None), sorted(set(others)), ("replay.hist" if replay_src else None)
 
